@@ -134,7 +134,7 @@ func c33(c *report.Check) {
 		maxLen = 4
 	}
 	alpha := []rune{'a', 'x', 'A', '0', '-', '.', '*', ' ', '\u00a0', '\u00e9', ':', '_'}
-	templates := []string{"%s", "%s.example.com", "a%sb.example.com", "example.%s", "192.0.2.%s", "%s.local", "xn--%s.com"}
+	templates := []string{"%s", "%s.example.com", "a%sb.example.com", "example.%s", "192.0.2.%s", "%s.local", "xn--%s.com", "xn--8-.8.8.%s", "xn--%s-.8.8.8", "host.xn--%s-"}
 	fixed := []string{
 		// IP addresses (internal and public, v4 and v6, with whitespace)
 		"127.0.0.1", "10.0.0.1", "192.168.1.1", "169.254.0.1", "0.0.0.0", "8.8.8.8", "1.1.1.1", "203.0.113.7", "255.255.255.255",
